@@ -327,6 +327,7 @@ func ZZC01Shadow() {
 const c01SrcEdge = `package d
 
 //«annT»
+// @constructor NewT
 type T struct {
 	N  int
 	Xs []int
@@ -370,6 +371,13 @@ func Edge(p *T, o *Outer, op OuterP) {
 	p.A = 9 // E-MUT-FIRST-NAME
 	p.B = 10 // E-MUT-SECOND-NAME
 	p.B++ // E-MUT-SECOND-INC
+}
+
+type Helper struct{}
+
+// a METHOD of another type that merely shares the constructor's name is not the function NewT
+func (Helper) NewT(p *T) {
+	p.N = 1 // E-OTHER-METHOD-NAMED-LIKE-CTOR
 }
 
 func Local() int {
@@ -416,6 +424,7 @@ func ZZC01Edge() {
 		{f, nd.LineOf(src, "E-MUT-FIRST-NAME"), "IMM01", nd.And(immT, nd.Not(nd.HasPrefix(mutAB, " @mutable")))},
 		{f, nd.LineOf(src, "E-MUT-SECOND-NAME"), "IMM01", nd.And(immT, nd.Not(nd.HasPrefix(mutAB, " @mutable")))},
 		{f, nd.LineOf(src, "E-MUT-SECOND-INC"), "IMM03", nd.And(immT, nd.Not(nd.HasPrefix(mutAB, " @mutable")))},
+		{f, nd.LineOf(src, "E-OTHER-METHOD-NAMED-LIKE-CTOR"), "IMM01", immT},
 		// E-OUTER-OWN, E-LOCAL-*: nothing
 	}, "C01 edge forms")
 }
